@@ -91,6 +91,12 @@ def numOf : PyVal → Option (Int × Int)
   | .float _ 0 _ n d => some (n, d)
   | _ => Option.none
 
+/-- position on the extended number line: -inf before every finite number before +inf (nan is not ordered) -/
+def numRank : PyVal → Option Int
+  | .float _ 1 _ _ _ => some 1
+  | .float _ 2 _ _ _ => some (-1)
+  | v => (numOf v).map fun _ => 0
+
 mutual
 /-- three-way comparison on mutually comparable keys: numbers by value, str / bytes and tuples lexicographically -/
 def pyCmp : PyVal → PyVal → Option Ordering
@@ -98,9 +104,13 @@ def pyCmp : PyVal → PyVal → Option Ordering
   | .str _ true a, .str _ true b => some (if lexLt (cps a) (cps b) then .lt else if lexLt (cps b) (cps a) then .gt else .eq)
   | .seq 1 _ xs, .seq 1 _ ys => pyCmpList xs ys
   | a, b =>
-    match numOf a, numOf b with
-    | some (n1, d1), some (n2, d2) =>
-      some (if n1 * d2 < n2 * d1 then .lt else if n2 * d1 < n1 * d2 then .gt else .eq)
+    match numRank a, numRank b with
+    | some r1, some r2 =>
+      if r1 < r2 then some .lt else if r2 < r1 then some .gt
+      else match numOf a, numOf b with
+        | some (n1, d1), some (n2, d2) =>
+          some (if n1 * d2 < n2 * d1 then .lt else if n2 * d1 < n1 * d2 then .gt else .eq)
+        | _, _ => some .eq          -- both +inf or both -inf
     | _, _ => Option.none
 def pyCmpList : List PyVal → List PyVal → Option Ordering
   | [], [] => some .eq
